@@ -45,7 +45,7 @@ def dump_mir():
     t0 = time.time()
     r = subprocess.run(['cargo', '+nightly', 'rustc', '--offline', '--lib', '--no-default-features', '--features', 'client',
                         '--target-dir', tdir, '--', '-Zunpretty=mir', '-C', 'debug-assertions=off'],
-                       cwd='/repo/ipp', env=ENV, capture_output=True, text=True)
+                       cwd=os.path.join(os.environ.get('VERIF_REPO', '/repo'), 'ipp'), env=ENV, capture_output=True, text=True)
     if r.returncode != 0 or 'fn canonicalize_uri' not in r.stdout:
         raise Inconclusive('MIR dump failed: ' + r.stderr[-1500:])
     return r.stdout, time.time() - t0
@@ -262,10 +262,31 @@ class Interp:
             return True
         if s == 'const false':
             return False
+        m = re.match(r'^Option::<(.*)>::None$', s)
+        if m:
+            inner = Num(z3.IntVal(0)) if re.match(r'^[ui](8|16|32|64|size)$', m.group(1)) else Str(sv(''), 'const')
+            return Opt(z3.BoolVal(False), inner)
+        m = re.match(r'^const (.*::promoted\[\d+\])$', s)
+        if m:
+            return self.promoted(m.group(1))
         m = re.match(r'^const ZeroSized: \{closure@(.*)\}$', s)
         if m:
             return Closure(m.group(1), {})
         raise Inconclusive('unknown operand: ' + s)
+
+    def promoted(self, name):
+        """value of a promoted constant: its own little MIR body (single block) evaluated with this interpreter"""
+        short = name.split('::')[-2] + '::' + name.split('::')[-1]
+        m = re.search(r'^const .*%s: .*? = \{$' % re.escape(short), self.mir, re.M)
+        if not m:
+            raise Inconclusive('promoted constant not found: ' + name)
+        body = self.mir[m.start():self.mir.index('\n}\n', m.start()) + 2]
+        blocks = parse_function(body)
+        sub = Interp(self.mir, blocks, self.closures)
+        res = sub.run([])
+        if len(res) != 1 or res[0][0]:
+            raise Inconclusive('promoted constant with branches: ' + name)
+        return res[0][1]
 
     def place(self, p, s):
         s = s.strip()
@@ -297,6 +318,9 @@ class Interp:
         s = s.strip()
         if s.startswith('&'):
             return self.place(p, re.sub(r'^&(mut )?', '', s))  # references are transparent
+        m = re.match(r'^Option::<.*?>::Some\((.*)\)$', s)
+        if m:
+            return Opt(z3.BoolVal(True), self.operand(p, m.group(1)))
         m = re.match(r'^discriminant\((.*)\)$', s)
         if m:
             v = self.place(p, m.group(1))
@@ -450,12 +474,25 @@ class Interp:
             return a0
         if key == '<str as PartialEq>::eq':
             return args[0].e == args[1].e
+        if re.match(r'^<Option<.*> as PartialEq>::(eq|ne)$', key) or key in ('<Option as PartialEq>::eq',):
+            x, y = args[0], args[1]
+            if isinstance(x, Opt) and isinstance(y, Opt):
+                same = z3.And(x.present == y.present, z3.Implies(x.present, x.val.e == y.val.e))
+                return z3.Not(same) if key.endswith('::ne') else same
+            raise Inconclusive('Option comparison of unknown operands')
+        if key == 'Option::is_none':
+            return z3.Not(a0.present)
         if key in ('Option::is_some',):
             return a0.present
         if key == 'Option::unwrap_or_default':
             if isinstance(a0.val, Str):
                 return Str(z3.If(a0.present, a0.val.e, sv('')), a0.val.kind, **a0.val.info)
             raise Inconclusive('unwrap_or_default of non-string')
+        if key == 'Option::filter':
+            keep = self.call_closure(p, args[1], [a0.val])
+            if not isinstance(keep, (z3.BoolRef, bool)):
+                raise Inconclusive('Option::filter predicate is not boolean')
+            return Opt(z3.And(a0.present, keep), a0.val)
         if key == 'Option::map':
             clo = args[1]
             return Opt(a0.present, self.call_closure(p, clo, [a0.val]))
@@ -833,15 +870,12 @@ def validate_axioms(binp, seed):
 def load_functions():
     mir, mir_s = dump_mir()
     canon = parse_function(function_text(mir, r'^fn canonicalize_uri\(_1: &Uri\) -> Uri \{'))
-    canon_clo_hdr = re.search(r'^fn canonicalize_uri::\{closure#0\}\(_1: \{closure@(.*?)\}', mir, re.M)
     transport = parse_function(function_text(mir, r'^fn ipp_uri_to_string\(_1: &Uri\) -> String \{'))
-    tr_clo_hdr = re.search(r'^fn ipp_uri_to_string::\{closure#0\}\(_1: \{closure@(.*?)\}', mir, re.M)
-    if not canon_clo_hdr or not tr_clo_hdr:
+    closures = {}
+    for m in re.finditer(r'^fn (canonicalize_uri|ipp_uri_to_string)::\{closure#(\d+)\}\(_1: \{closure@(.*?)\}', mir, re.M):
+        closures[m.group(3)] = parse_function(function_text(mir, r'^fn %s::\{closure#%s\}\(' % (m.group(1), m.group(2))))
+    if len(closures) < 2:
         raise Inconclusive('closure bodies not found in the MIR')
-    closures = {
-        canon_clo_hdr.group(1): parse_function(function_text(mir, r'^fn canonicalize_uri::\{closure#0\}')),
-        tr_clo_hdr.group(1): parse_function(function_text(mir, r'^fn ipp_uri_to_string::\{closure#0\}')),
-    }
     return mir, mir_s, canon, transport, closures
 
 
